@@ -23,10 +23,10 @@ ID = "C10"
 TITLE = "Rearranging dimensions preserves every element's label coordinates"
 RULE = ("generated arrays of 0-4 dims whose axes differ in kind and length, and deliberately square arrays with identical label vectors; for "
         "each array ALL permutations for transpose (names, positions, mixed, list and varargs, T for ndim <= 2), all axis pairs for swapaxes, "
-        "all (axis, start) for rollaxis, all insertion positions for newaxis (with / without values), squeeze (all / one axis), repeat (int, "
+        "all (axis, start) for rollaxis (also counted from the end), all insertion positions for newaxis (with / without values), squeeze (all / one axis), repeat (int, "
         "labels, Axis), generated broadcast targets (DimArray, list of Axis, OrderedDict; extra and reordered dims; target axes of length 0), broadcast_arrays of 2-3 "
         "arrays, and compositions (transpose then inverse, newaxis then squeeze, swapaxes twice, rollaxis vs transpose).  A sub-case is "
-        "non-trivial when ndim >= 2 and the rearrangement is not the identity.")
+        "non-trivial when ndim >= 2 and the rearrangement is not the identity.  Every axis carries metadata of its own, which must arrive with it.")
 ASSUMPTIONS = [
     "oracle: dict model, coordinates by label; labels compared exactly",
     "T is exercised for ndim <= 2 only (documented: transpose() without arguments needs explicit dims for ndim > 2)",
